@@ -295,6 +295,26 @@ func init() {
 			problems = append(problems, "replica/replicator.go not parsed")
 			sb.WriteString("\ndef resetAppendIndexCalls : List String := []\n\ndef resetAppendIndexArgs : List String := []\n")
 		}
+		// ---- the configured page size: which functions of queue.go read or write the field q.pageSize
+		// (the model has no such parameter: only NewQueue may look at it, to create the data factory)
+		var psUsers []string
+		for _, d := range qf.Decls {
+			fd, ok := d.(*ast.FuncDecl)
+			if !ok || fd.Body == nil {
+				continue
+			}
+			uses := false
+			ast.Inspect(fd.Body, func(n ast.Node) bool {
+				if se, ok := n.(*ast.SelectorExpr); ok && se.Sel.Name == "pageSize" {
+					uses = true
+				}
+				return true
+			})
+			if uses {
+				psUsers = append(psUsers, fd.Name.Name)
+			}
+		}
+		sb.WriteString("\ndef pageSizeUsers : List String := " + LeanStrList(psUsers) + "\n")
 		sb.WriteString("\n-- facts that could not be re-extracted (placeholders were emitted for them)\ndef extractionProblems : List String := " + LeanStrList(problems) + "\n")
 		return sb.String(), nil
 	}})
